@@ -1,7 +1,9 @@
 import PMV.Model.Heap
 import PMV.Lemmas.HeapFrame
 import PMV.Lemmas.HeapCopy
+import PMV.Lemmas.HeapTree
 import PMV.Gen.WriteSites
+import PMV.Gen.Summaries
 /-
   C07 — non-in-place operations never modify their operands or shared constants; copy() shares no writable
   storage.  Property theorems only (the soundness development of the freshness analysis is in
@@ -195,15 +197,45 @@ def siteOk (s : WriteSite) : Bool :=
   | .param _ _ => s.allowed
   | _ => true
 
+open PMV.Gen.C07 in
+/-- POSSIBLE sites: the target is a parameter's storage on SOME path (path-sensitive may-alias), or a bare parameter
+    updated with `op=`.  Each must be on the reviewed list of the translator (reason recorded there); a new one
+    breaks this theorem and gets extra draws in the sweep. -/
+def possibleOk (s : WriteSite) : Bool :=
+  match s.root with
+  | .may _ _ => s.allowed
+  | _ => true
+
 theorem no_tainted_write : PMV.Gen.C07.writeSites.all siteOk = true := by decide +kernel
+
+theorem no_unreviewed_possible : PMV.Gen.C07.writeSites.all possibleOk = true := by decide +kernel
+
+/-! #### generated effect summaries (one per public non-mutating function whose write sites all have a definite
+    root; regenerated from the source on every run) -/
+
+/-- every generated summary passes the check — strictly, except the documented read-only markers, which pass the
+    relaxed check -/
+theorem generated_safe : PMV.Gen.C07S.summaries.all (fun s => safe s.rx s.prog) = true := by decide +kernel
+
+/-- hence `frame` binds every function the translator can summarise: whatever the heap, the (aliased) arguments and
+    the raise schedule, the write sites of the function — as extracted from the source, with the provenance of their
+    targets — leave every pre-existing cell as it is (strict summaries: identical; relaxed: read-only marking only) -/
+theorem generated_frame (s : PMV.Gen.C07S.GenSummary) (hs : s ∈ PMV.Gen.C07S.summaries) (h : Heap) (A : Args) :
+    Frame s.rx h.next h (call s.prog h A).h := by
+  have := List.all_eq_true.1 generated_safe s hs
+  exact run_inv A s.prog _ _ (Inv.init s.rx h) (by simpa [safe] using this)
+
+theorem generated_frame_strict (s : PMV.Gen.C07S.GenSummary) (hs : s ∈ PMV.Gen.C07S.summaries) (hrx : s.rx = false)
+    (h : Heap) (A : Args) : Agree h.next h (call s.prog h A).h := by
+  have f := generated_frame s hs h A
+  rw [hrx] at f
+  exact f.strict_agree
 
 /-! #### copy() -/
 
--- FULL: copy_fresh : reach (copy o) ∩ reach o = ∅ for objects WITH derivatives (reach = object, derivative
---       objects, their ndarrays, their buffers).  Proved below for the object level (`copyFlat` = copy(recursive=
---       False), which Qube.copy applies to the object and to each derivative separately, qube.py:2023-2026);
---       the recursion over the derivative dictionary is not modelled in Part B (the T1 sequences cover it, and
---       `copy_frame`/`uniform_safe` cover "copy() writes nothing old" for every number of derivatives).
+-- The `_partial` theorems are the object-level building blocks (`copyFlat` = copy(recursive=False), which Qube.copy
+-- applies to the object and to each derivative separately); the FULL statements for objects with any number of
+-- derivatives are `copy_fresh`, `copy_independent` and `copy_then_mutate` further down.
 /-- COPY_FRESH (object level).  Everything the copy owns did not exist before the call: the new object, its values
     and mask ndarrays and their buffers are new cells (`≥ h.next`), the new arrays are writable, and no cell that
     existed before — in particular nothing reachable from the source — is modified. -/
@@ -226,11 +258,9 @@ theorem copy_disjoint_partial (h : Heap) (o : Nat) (a b : Nat)
 
 example : (copyFlat demoHeap 3).2 = 5 ∧ ((copyFlat demoHeap 3).1.obj 5).vals = some 4 := by decide
 
--- FULL: copy_independent for objects with derivatives and for the complete mutator API (insert_deriv/delete_deriv
---       change the derivative dictionary; not in `Mut`).  Proved: for two separated well-formed objects and every
---       (unbounded, arbitrarily interleaved) history over {item/augmented assignment to values, item assignment to
---       the mask incl. "replace a shared read-only mask by a copy first", rebinding _values_, set_units,
---       as_readonly}.
+-- object level: two separated well-formed objects and every (unbounded, arbitrarily interleaved) history over
+-- {item/augmented assignment to values, item assignment to the mask incl. "replace a shared read-only mask by a copy
+-- first", rebinding _values_, set_units, as_readonly}.
 /-- COPY_INDEPENDENT, single step: a mutation of `t` through the public API does not show in a separate object
     `x`, and keeps the two separate and well-formed -/
 theorem mutate_other_unchanged (h : Heap) (t x : Nat) (m : Mut) (sep : Sep h t x) (wt : WF h t) (wx : WF h x) :
@@ -267,5 +297,64 @@ theorem copy_then_mutate_partial (h : Heap) (o : Nat) (wo : WF h o) (ms : List M
     SameObs (copyFlat h o).1 (runHist (copyFlat h o).1 o (copyFlat h o).2 (ms.map fun m => (false, m))) o := by
   obtain ⟨_, sep, w1, w2⟩ := copyFlat_sep h o wo
   exact copy_independent_partial _ _ _ ms sep w1 w2
+
+/-! #### copy(): objects with any number of derivatives (induction over the derivative list) -/
+
+/-- COPY_FRESH.  For every heap and every object `o` with ANY number of derivatives, `c = o.copy()`:
+    every member of the copy (the new object and each new derivative object), every ndarray they hold and every
+    buffer of those ndarrays is a cell that did not exist before (`h.next ≤ · < next'`); no cell that existed before
+    is modified; the copy has the same derivative keys. -/
+theorem copy_fresh (h : Heap) (o : Nat) :
+    (∀ p ∈ (copyObj h o).1.reachObjs (copyObj h o).2, Fresh h.next (copyObj h o).1 p) ∧
+    Agree h.next h (copyObj h o).1 ∧
+    ((copyObj h o).1.obj (copyObj h o).2).derivs.map (·.1) = (h.obj o).derivs.map (·.1) :=
+  copyObj_spec h o
+
+/-- reach (copy o) ∩ reach o = ∅: for a well-formed source, no member of the source shares an object, an ndarray
+    object or a buffer with a member of the copy; both are well-formed and the source is observably unchanged -/
+theorem copy_fresh_disjoint (h : Heap) (o : Nat) (wo : WFT h o) :
+    SameObsT h (copyObj h o).1 o ∧ SepT (copyObj h o).1 o (copyObj h o).2 ∧
+    WFT (copyObj h o).1 o ∧ WFT (copyObj h o).1 (copyObj h o).2 :=
+  copyObj_sep h o wo
+
+/-- one public mutation — of the object's values/mask/units/read-only state, of one of its derivatives, or of its
+    derivative dictionary (`insert_deriv` with a non-aliased operand, `delete_deriv`) — does not show in a separated
+    object and preserves separation and well-formedness -/
+theorem mutateT_other_unchanged (h : Heap) (x y : Nat) (m : MutT) (sep : SepT h x y) (wx : WFT h x) (wy : WFT h y) :
+    SameObsT h (applyMutT h x m) y ∧ SepT (applyMutT h x m) x y ∧ WFT (applyMutT h x m) x ∧
+    WFT (applyMutT h x m) y :=
+  applyMutT_other h x y m sep wx wy
+
+/-- separation survives every interleaved history -/
+theorem copy_independent_invT (h : Heap) (a b : Nat) (hist : List (Bool × MutT))
+    (sep : SepT h a b) (wa : WFT h a) (wb : WFT h b) :
+    SepT (runHistT h a b hist) a b ∧ WFT (runHistT h a b hist) a ∧ WFT (runHistT h a b hist) b :=
+  histT_inv a b hist h sep wa wb
+
+/-- COPY_INDEPENDENT.  For every LIST of mutators applied to one of two separated objects (with any number of
+    derivatives), the complete observation of the other — the object, the set of its derivatives, every derivative
+    object, all ndarray objects with their flags and the contents of all their buffers — is constant. -/
+theorem copy_independent (h : Heap) (a b : Nat) (ms : List MutT)
+    (sep : SepT h a b) (wa : WFT h a) (wb : WFT h b) :
+    SameObsT h (runHistT h a b (ms.map fun m => (true, m))) b ∧
+    SameObsT h (runHistT h a b (ms.map fun m => (false, m))) a :=
+  ⟨histT_first_only a b _ (by intro p hp; simp at hp; obtain ⟨m, _, e⟩ := hp; rw [← e]) h sep wa wb,
+   histT_second_only a b _ (by intro p hp; simp at hp; obtain ⟨m, _, e⟩ := hp; rw [← e]) h sep wa wb⟩
+
+/-- end to end: `c = o.copy()`, then ANY list of mutators on `o` leaves `c` constant and vice versa -/
+theorem copy_then_mutate (h : Heap) (o : Nat) (wo : WFT h o) (ms : List MutT) :
+    SameObsT (copyObj h o).1 (runHistT (copyObj h o).1 o (copyObj h o).2 (ms.map fun m => (true, m)))
+      (copyObj h o).2 ∧
+    SameObsT (copyObj h o).1 (runHistT (copyObj h o).1 o (copyObj h o).2 (ms.map fun m => (false, m))) o := by
+  obtain ⟨_, sep, w1, w2⟩ := copyObj_sep h o wo
+  exact copy_independent _ _ _ ms sep w1 w2
+
+/-- a concrete object with one derivative: object 3 (values ndarray 1) with derivative object 2 under key 0 -/
+def demoHeapD : Heap :=
+  { demoHeap with obj := fun o => if o = 3 then ⟨some 1, none, none, [(0, 2)], false⟩
+                                  else ⟨some 0, none, none, [], false⟩ }
+
+example : (copyObj demoHeapD 3).2 = 5 ∧ ((copyObj demoHeapD 3).1.obj 5).derivs = [(0, 7)] ∧
+    ((copyObj demoHeapD 3).1.obj 7).vals = some 6 := by decide
 
 end PMV.Heap
